@@ -36,6 +36,7 @@
 import DfolsVerif.Proofs.Interp
 import DfolsVerif.Proofs.ModelSnapshot
 import DfolsVerif.Proofs.Snapshots
+import DfolsVerif.Gen.Unscale
 
 set_option linter.unusedSectionVars false
 
@@ -297,6 +298,17 @@ theorem C11_src_snapshots :
     ("save_point", "jacsave_eval_nums", "self.model_jac_eval_nums.copy() if self.model_jac_eval_nums is not None else None")
       ∈ Gen.snapshotAssigns :=
   ⟨Snapshots.snapshots_are_copies, Snapshots.snapshots_complete.1, Snapshots.snapshots_complete.2.2.2.2⟩
+
+/-- **layer G: the un-scaling the theorems are about is the un-scaling `solve` performs** — the single store into
+    `jacmin` in `solve`, translated from solver.py on every run (`Gen.jacUnscaleEntry`: entry (r, i) of the returned
+    matrix), is entry (r, i) of `unscaleJac scale J`, the matrix of `unscale_jacobian` / `unscale_regression` /
+    `jacobian_fits_user_points`; it runs for every column (`for i in range(n)`) exactly when there is a scaling and a
+    Jacobian. -/
+theorem C11_src_unscale_jacobian {K : Type*} [Field K] {ν μ : Type*} (shift scale : ν → K) (J : Matrix μ ν K) (r : μ) (i : ν) :
+    unscaleJac scale J r i = Gen.jacUnscaleEntry (fun a b => J a b) shift scale r i ∧
+    Gen.jacUnscaleGuard = "scaling_changes is not None and jacmin is not None" ∧
+    Gen.jacUnscaleLoop = "for i in range(n)" :=
+  ⟨rfl, by decide, by decide⟩
 
 end C11
 end Dfols
